@@ -162,14 +162,28 @@ let handle (x : sexp) : (string * string) list =
     (* model *)
     let s = ref (init (idle_mode <> 0)) in
     let mlog = ref [] in
+    let overlap = ref false in
     let mown = Hashtbl.create 8 in
     let mowner w = try Hashtbl.find mown w with Not_found -> -1 in
-    let overlap = ref false in
     let record evs = List.iter (fun e -> (match e with OSrvSub (_, w, i) -> Hashtbl.replace mown (ii w) (ii i) | _ -> ()); mlog := e :: !mlog) evs in
     let do_step (a : action) : ev list option =
       match step !s a with
       | Some (s1, e1) -> let (s2, e2) = quiesce fuel nsub s1 in s := s2; record e1; record e2; Some (e1 @ e2)
       | None -> None in
+    (* subscribers that cancel from inside their terminal callback: the upstream frame is dispatched
+       (handler called), then the subscriber's ctx is cancelled and its cancel function runs to the
+       end BEFORE the read loop's own removeSub (quiesce runs subscriber actions first) *)
+    let armed = Hashtbl.create 4 in
+    let do_msg (i : int) (a : action) (term : bool) : ev list option =
+      if term && Hashtbl.mem armed i && not (!s.ctxc (ni i)) then
+        match step !s a with
+        | Some (s1, e1) ->
+          let delivered = List.exists (fun e -> match e with ODeliver (j, _) -> ii j = i | _ -> false) e1 in
+          if delivered then overlap := true;
+          let (s1', e1') = if delivered then (match step s1 (ACtxCancel (ni i)) with Some (x, e) -> (x, e1 @ e) | None -> (s1, e1)) else (s1, e1) in
+          let (s2, e2) = quiesce fuel nsub s1' in s := s2; record e1'; record e2; Some (e1' @ e2)
+        | None -> None
+      else do_step a in
     let conn_of i = (* latest connection on which i's subscribe frame was seen *)
       List.fold_left (fun acc e -> match e, acc with
           | OSrvSub (c, w, j), None when ii j = i -> Some (c, w) | _ -> acc) None !mlog in
@@ -185,6 +199,11 @@ let handle (x : sexp) : (string * string) list =
         let i = atoi i in
         (match !s.dialing (keyof i) with Some _ -> overlap := true | None -> ());
         opt (do_step (ACtxCancel (ni i)))
+      | L [A "cancelin"; i] ->
+        let i = atoi i in
+        (match !s.pc (ni i) with
+         | SIdle -> ["(skip)"]
+         | _ -> if !s.ctxc (ni i) then ["(skip)"] else (Hashtbl.replace armed i (); []))
       | L [A "accept"; a] | L [A "reject"; a] ->
         let k = keyof (atoi a) in
         (match List.find_opt (fun (_, x) -> x.d_phase = DConnecting && ephm x.d_key = ephm k) (dial_list !s) with
@@ -206,7 +225,7 @@ let handle (x : sexp) : (string * string) list =
         let tag = (match e with L [_; _; t] -> atoi t | _ -> 0) in
         let k = (match op with "next" -> KData (nn tag) | "complete" -> KComplete | _ -> KError) in
         (match conn_of (atoi i) with
-         | Some (c, w) -> opt (do_step (UpMsg (c, w, k)))
+         | Some (c, w) -> opt (do_msg (atoi i) (UpMsg (c, w, k)) (match k with KData _ -> false | _ -> true))
          | None -> ["(skip)"])
       | L [A "nextx"; a; b; t] ->
         (match conn_of (atoi a), conn_of (atoi b) with
